@@ -577,7 +577,8 @@ impl State {
                 if let Entry::Constant(_) = &self.dict[i].entry {
                     i += 1;
                 } else {
-                    self.dict.swap_remove(i);
+                    // keep the definition order of the remaining constants
+                    self.dict.remove(i);
                 }
             }
             let is_building_fun = match self.flow_stack[prev.fs_len..].last() {
